@@ -1263,7 +1263,16 @@ func (p *balloons) Reconfigure(newCfg interface{}) error {
 		return err
 	}
 	log.Info("config updated successfully")
-	if err := p.Sync(p.cch.GetContainers(), p.cch.GetContainers()); err != nil {
+	// Re-admit only containers that are created or running, not ones that
+	// have already been stopped but are still cached.
+	readmit := []cache.Container{}
+	for _, c := range p.cch.GetContainers() {
+		switch c.GetState() {
+		case cache.ContainerStateCreated, cache.ContainerStateRunning:
+			readmit = append(readmit, c)
+		}
+	}
+	if err := p.Sync(readmit, p.cch.GetContainers()); err != nil {
 		log.Warnf("failed to sync containers: %v", err)
 	}
 	return nil
